@@ -10,25 +10,21 @@ COMMON_NOTE = ("Trusted: Coq 8.16.1 kernel (vm_compute used, native_compute not)
                "correspondence harness. The theorem is about a hand-written Gallina model; the model is tied to /repo's current "
                "working tree by executing both on the same generated cases on every run. ")
 
-CHECKS = {
-    "C03": dict(
-        text="Theorems range_canonical / range_denotation / range_classification about the Gallina model of parse_range "
-             "(regex scan, spec arithmetic, sort+coalesce) hold for every header text and every size; the model is compared with "
-             "the live parse_range on an exhaustive small domain, random range sets, arbitrary text and the \\d table.",
-        note="Modelled, not verified: re.findall's scan (transcribed as a two-phase scanner), int() incl. its 4300-digit limit, "
-             "sorted(); size >= 0.",
-        technique="Coq proof (fold invariant, sortedness, interval-union extensionality) + executable model/implementation correspondence",
-        ref="5/C03"),
-    "C17": dict(
-        text="Theorems reachable_invariant / ops_refine / views_agree / spec_meaning: for every initial pair list and every "
-             "operation sequence the dict+list representation of MutableMultiMapping refines a plain ordered pair list and all views "
-             "agree with it; the model (dict as ordered association list, MutableMapping mix-in methods) is compared with the live "
-             "class on all operation sequences up to length 2 (thorough 3) from all small initial lists plus random long sequences.",
-        note="Modelled, not verified: Python dict ordering, the collections.abc.MutableMapping mix-in. "
-             "query_roundtrip (parse_qsl/urlencode) is covered by the correspondence and oracle only in this version.",
-        technique="Coq proof (representation invariant by induction over operations, refinement to a list specification) + correspondence",
-        ref="5/C17"),
-}
+def load_checks():
+    import importlib
+    import sys
+    sys.path.insert(0, VERIF)
+    out = {}
+    for fn in sorted(os.listdir(os.path.join(VERIF, "harness"))):
+        m = __import__("re").match(r"^(c\d\d)\.py$", fn)
+        if m:
+            mod = importlib.import_module("harness." + m.group(1))
+            if hasattr(mod, "MANIFEST"):
+                out[mod.PID] = mod.MANIFEST
+    return out
+
+
+CHECKS = load_checks()
 
 ALL = ["C%02d" % i for i in range(1, 21)]
 
